@@ -87,6 +87,11 @@ claim('C05', 'Hypothesis separable states by construction (11 dimension tuples, 
       'is_ABk_symmetric_ext over k, PPT and bosonic flags, single and batched, in sequences that change dims / flags between calls (memoised data).',
       'trusted: separable states are separable by construction (vf/ref.py); SDP verdicts as returned by the solver; thorough tier extends SDP sizes to (3,3), k=3')
 
+claim('C13', 'Hypothesis two-qubit states of every rank incl. near-separable (eps down to 1e-14), threshold families, rotated Bell states; models at arbitrary parameters and scales with instance re-use; oracle: metamorphic local-unitary invariance, defining monotone formulas with own binary entropy, own partial transpose, explicit numpy ensemble average read off the Stiefel point',
+      'Closed forms are judged for finiteness, ranges, LU invariance, pure-state limits, mutual formulas and PPT equivalence; every variational model is evaluated at random parameters (scales 1e-6..10) and its loss '
+      'is compared with the explicit average over the decomposition it encodes (which must reproduce the state that was set, also after re-use) and with the closed form from below.',
+      'trusted: numpy svd/eigh; model internals manifold/_sqrt_rho used only to read off the ensemble; tolerances 1e-7 (concurrence), 1e-8 otherwise, GME near C=1 scaled by its derivative')
+
 NOT_YET = 'check not built yet in this session (work in progress; see DESIGN.md section 4 for the planned generator and oracle)'
 
 ALL = [f'C{i:02d}' for i in range(1, 21)]
